@@ -435,6 +435,9 @@ class Conic(Quadric):
 
         """
         if isinstance(other, Conic):
+            if self.is_degenerate and not other.is_degenerate:
+                # intersect the non-degenerate conic with the components of the degenerate one
+                return other.intersect(self)
             if other.is_degenerate:
                 g, h = other.components
             else:
